@@ -3,3 +3,4 @@ import SedpackModel.Filler
 import SedpackModel.Pool
 import SedpackModel.Iter
 import SedpackModel.Pipeline
+import SedpackModel.Tree
